@@ -661,6 +661,46 @@ Definition mask_mul_prog (cast masked alt : bool) : prog :=
                [("factors", grad); ("weights", ctx_of grad); ("out1", Op PyF (Op diff PyI))]
           else [("out0", if masked then Op kr M_ else kr)]).
 
+(* tensor_train_cross (contrib/decomposition/_tt_cross.py).  vFl = factor_old, vF = factor_new (one variable for all cores), vX = Q_skeleton.
+   factor_old = tl.zeros(.., **tl.context(input_tensor)); factor_new = tl.tensor(rng.random_sample(..), **tl.context(input_tensor));
+   error = tl.norm(tt_to_tensor(factor_old) - tt_to_tensor(factor_new), 2); sweep: factor_old = factor_new;
+   left_right_ttcross_step / right_left_ttcross_step: core = input_tensor[idx] (reshaped, transposed); Q, R = tl.qr(core);
+   J, Q_inv = maxvol(Q), where maxvol returns integer row indices (tl.zeros(r, dtype=tl.int64), argmax) and
+   inverse = tl.solve(A[row_idx, :], tl.eye(r, **tl.context(A))); Q_inv = tl.tensor(Q_inv); Q_skeleton = tl.dot(Q, Q_inv);
+   the left-to-right step keeps only the indices; right-to-left: factor_new[k - 1] = reshape(transpose(Q_skeleton));
+   factor_new[0] = core = input_tensor[idx]; error recomputed; returns factor_new *)
+Definition tt_cross_prog (c : cfg) : prog :=
+  let qskel (core : expr) := Op core (Op core (ctx_of core)) in
+  mkprog [(vT, In_); (vFl, ctx); (vF, Into In_ bare); (vE, norm (Op (Var vFl) F_))]
+         [(vFl, F_); (vX, qskel T_); (vF, qskel T_); (vF, Op F_ T_); (vE, norm (Op (Var vFl) F_))]
+         [("*", F_)].
+
+(* cp_flip_sign (cp_tensor.py).  weights given or T.ones(rank, **T.context(factors[0])); per mode jj != mode:
+   column_signs = T.sign(func(factors[jj], axis=0)) with func = T.mean; column_signs = T.where(column_signs == 0, T.ones(.., **T.context(column_signs)),
+   column_signs); factors[mode] *= column_signs; factors[jj] *= column_signs; finally weight_signs = T.sign(weights), the same where, factors[mode] *=
+   weight_signs; weights = T.abs(weights) *)
+Definition flip_sign_prog (c : cfg) : prog :=
+  let signs (e : expr) := Op e (ctx_of e) in
+  mkprog [(vF, In_); (vW, Op In_ (ctx_of F_))]
+         [(vF, Op F_ (signs (ToFloat F_)))]
+         [("weights", RealOf W_); ("factors", Op F_ (signs W_))].
+
+(* congruence_coefficient (metrics/factors.py): mat = mat / T.norm(mat, axis=0) for both matrices; T.abs(T.dot(T.transpose(mat1), mat2)) (absolute_value=True),
+   to_numpy; all_congruences = 1; all_congruences *= congruence; linear_sum_assignment gives the integer permutation; returns
+   all_congruences[row_ind, col_ind].mean(), permutation *)
+Definition congruence_e (m1 m2 : expr) : expr :=
+  let n1 := Div m1 (norm m1) in let n2 := Div m2 (norm m2) in
+  ToFloat (Op PyI (RealOf (Op n1 n2))).
+Definition congruence_prog (c : cfg) : prog :=
+  mkprog [(vT, In_)] [] [("out0", congruence_e T_ T_); ("out1", ints)].
+
+(* cp_permute_factors (cp_tensor.py): permuted_tensors = copies of the tensors to permute; the reference and the tensors are cp_normalize'd ONLY to compute
+   the permutation (congruence_coefficient of the normalised factors -> integer column indices, T.tensor(col, dtype=T.int64)); the copies' factors and
+   weights are indexed by it: factors[f][:, col], weights[col] *)
+Definition permute_prog (c : cfg) : prog :=
+  mkprog ([(vF, In_); (vW, In_); (vX, F_); (vY, W_)] ++ cp_normalize_stmts ++ [(vC, congruence_e F_ F_)]) []
+         [("weights", Y_); ("factors", X_); ("out1", ints)].
+
 (* shallow skeletons: the outputs are promotions / real parts of the inputs and of allocations in the input's context;
    the internal flow of these entry points is NOT transcribed (see the manifest) *)
 (* the slot name "*" stands for every array of the returned structure *)
@@ -690,9 +730,10 @@ Definition skeleton_v (mc : bool) (c : cfg) : prog :=
   | FParafac2 => parafac2_prog c
   | FLeverage => shallow c (Leaf (LConst F64))      (* documented: tl.tensor(..., dtype=tl.float64) *)
   | FSampleKR => sample_kr_prog c
-  | FIndexed => mkprog [(vT, In_)] [] [("out0", Op T_ T_); ("out1", ints)]               (* congruence_coefficient: (value, permutation) *)
-  | FPermute => mkprog [(vT, In_)] [] [("weights", Op T_ T_); ("factors", Op T_ T_); ("out1", ints)]  (* cp_permute_factors: (cp tensors, permutations) *)
-  | FFlipSign => mkprog [(vT, In_)] [] [("weights", RealOf T_); ("factors", Op T_ (ctx_of T_))]  (* weights = abs(weights) *)
+  | FIndexed => congruence_prog c
+  | FPermute => permute_prog c
+  | FFlipSign => flip_sign_prog c
+  | FTTCross => tt_cross_prog c
   | FCmtf => cmtf_prog c
   | FCpReg | FTuckerReg => regressor_prog c
   | FPlsr => plsr_prog c
@@ -837,6 +878,7 @@ Definition nonneg_family (f : family) : bool := match f with FNNParafac | FNNPar
 Definition real_by_design (c : cfg) (s : string) : bool :=
   String.eqb s "errors"
   || (String.eqb s "weights" && (c_normalize c || match c_fam c with FFlipSign | FCpNormalize => true | _ => false end))
-  || (match c_fam c with FSvd => String.eqb s "out1" || c_alt c | FCmtf => String.eqb s "out2" | _ => false end)
+  || (match c_fam c with FSvd => String.eqb s "out1" || c_alt c | FCmtf => String.eqb s "out2"
+                             | FIndexed => String.eqb s "out0"   (* congruence_coefficient: mean of |mat1^T mat2| *) | _ => false end)
   || nonneg_family (c_fam c)
   || (match c_fam c with FRandom => c_warm c | _ => false end).
